@@ -32,7 +32,7 @@ func xGenPropWrap(prop string, kind int, tier string, seed uint64, n int, e *Emi
 	for i := 0; i < n; i++ {
 		r := NewRng(seed+uint64(kind)*7919, uint64(i))
 		s := xGenSchema(r)
-		o := xGenOpts{DynDirPct: 60, DirPct: 25, FragPct: 15, InlinePct: 12, VarArgPct: 25, MaxDepth: 3, MultiOp: r.Chance(25)}
+		o := xGenOpts{DynDirPct: 60, DirPct: 25, FragPct: 15, InlinePct: 12, VarArgPct: 25, MaxDepth: 3, MultiOp: r.Chance(25), ReusePct: 15}
 		pol := xPolicy{Null: 8, Err: 5, ValErr: 2, Panic: 2, Thunk: 8, Adversarial: 2, BadType: 1}
 		switch prop {
 		case "C04":
